@@ -113,7 +113,7 @@ def copy_overrides(cx, kind, n=1):
 
 def _menu_message(cx, mido, kind):
     """Concrete message with every attribute from {min, default, max}."""
-    m = smf.make(_Menu(cx), mido, kind, 'm_', [0, 1, smf.D28][cx.choice('time', 3)])
+    m = smf.make(_Menu(cx), mido, kind, 'm_', [0, 1, smf.D28, 0.3][cx.choice('time', 4)])
     return m
 
 
@@ -173,7 +173,16 @@ def frozen_hash(cx, kind):
         fo = freeze_message(o)
         if fo == f1:
             cx.check(hash(fo) == h[0] and {f1: 1}.get(fo) == 1 and fo in {f1}, 'equal=>equal-hash')
-    # hashing must not leave anything behind in the object
+    # a time that differs only in the last digits (seconds come out of float arithmetic): if the library calls
+    # the two messages equal, their hashes must agree as well
+    import math
+    t0 = float(m.time)
+    for t1 in (math.nextafter(t0, math.inf), t0 + 0.1 + 0.2 - 0.3, t0 * (1 + 1e-10) + 1e-13, t0 - 1e-13):
+        near = freeze_message(m.copy(time=t1))
+        for base in (f1, freeze_message(m.copy(time=t0))):
+            if near == base or base == near:
+                cx.check(hash(near) == hash(base) and {base: 1}.get(near) == 1 and near in {base},
+                         'equal=>equal-hash')
     unhashed = freeze_message(m.copy())
     cx.check(f1 == unhashed and unhashed == f1 and set(vars(f1)) == set(vars(unhashed)), 'hashing-leaves-no-trace')
     t = thaw_message(f1)
@@ -189,7 +198,7 @@ BOUNDS = {
              'attribute symbolic in its documented range: copy/freeze/thaw class and equality, None->None, one symbolic '
              'assignment on the copy and on the original (attribute chosen symbolically), every set/del on the frozen twin; '
              'copy(**overrides) with one attribute symbolic in [-2^40, 2^40] or from a 5-value ill-typed menu, from the plain and from the frozen '
-             'message, against a fresh construction; hashing over the {min, mid, max} menu of every attribute, incl. equal messages built along different paths (decoded from bytes, text, a reordered dict)',
+             'message, against a fresh construction; hashing over the {min, mid, max} menu of every attribute (time also 0.3 and four float neighbours of each time), incl. equal messages built along different paths (decoded from bytes, text, a reordered dict)',
     'thorough': 'overrides of two attributes at once',
 }
 OUTSIDE = 'override values beyond integers and the ill-typed menu; hashing beyond the ' \
